@@ -489,3 +489,30 @@ def coq_map_cases(prefix, imports, defs, typ, case_texts, evalfun, shard=300, wo
                 return None, out[-1500:]
             res += b
     return res, None
+
+
+def safe_cases(ctx, name, fn):
+    """run a case-generating tool; a crash of the tool (it asserts the library's own consistency while it runs the
+    histories) is reported as a broken correspondence with the exception text, not as a crash of the check"""
+    try:
+        return fn()
+    except Exception as e:      # noqa
+        import traceback
+        ctx.broken.append({'name': 'correspondence:' + name,
+                           'summary': 'running the histories on the library failed: %s: %s' % (type(e).__name__, str(e)[:300]),
+                           'traceback': traceback.format_exc()[-1500:]})
+        ctx.cov['correspondences'][name] = {'cases': 0, 'disagreements': 'tool failed'}
+        return None
+
+
+def safe_render(ctx, name, render, case):
+    """render one case (this may run the library); on a crash report a broken correspondence and return None"""
+    try:
+        return render(case)
+    except Exception as e:      # noqa
+        if not any(b.get('name') == 'correspondence:' + name and 'rendering' in b.get('summary', '') for b in ctx.broken):
+            import traceback
+            ctx.broken.append({'name': 'correspondence:' + name,
+                               'summary': 'rendering a case (running it on the library) failed: %s: %s' % (type(e).__name__, str(e)[:300]),
+                               'traceback': traceback.format_exc()[-1500:]})
+        return None
